@@ -385,6 +385,79 @@ func cacheShape(g *gen) {
 	if fn := g.funcDecl(dir, "Cache.get"); fn != nil {
 		cacheEmitBool(g, "get_defers_close", "cache.get: `defer f.Close()` right after the checked os.Open", cacheDeferCloseAfter(fn, "Open"))
 	}
+	// hash.go: Subkey writes "subkey:", parent[:], []byte(desc) into one SHA-256, in this order
+	if fn := g.funcDecl(dir, "Subkey"); fn != nil {
+		var writes []ast.Expr
+		ast.Inspect(fn.Body, func(x ast.Node) bool {
+			c, ok := x.(*ast.CallExpr)
+			if !ok || len(c.Args) != 1 {
+				return true
+			}
+			if se, ok := c.Fun.(*ast.SelectorExpr); ok && se.Sel.Name == "Write" {
+				if id, ok := se.X.(*ast.Ident); ok && id.Name == "h" {
+					writes = append(writes, c.Args[0])
+				}
+			}
+			return true
+		})
+		prefix, okShape := "", false
+		if len(writes) == 3 {
+			// []byte("subkey:")
+			if c, ok := writes[0].(*ast.CallExpr); ok && len(c.Args) == 1 {
+				if s, ok := g.str(c.Args[0]); ok {
+					prefix = s
+					// parent[:]
+					if sl, ok := writes[1].(*ast.SliceExpr); ok && sl.Low == nil && sl.High == nil {
+						if id, ok := sl.X.(*ast.Ident); ok && id.Name == "parent" {
+							// []byte(desc)
+							if c2, ok := writes[2].(*ast.CallExpr); ok && len(c2.Args) == 1 {
+								if id2, ok := c2.Args[0].(*ast.Ident); ok && id2.Name == "desc" {
+									okShape = true
+								}
+							}
+						}
+					}
+				}
+			}
+		}
+		if !okShape {
+			g.fail("cache.Subkey: h.Write([]byte(<literal>)); h.Write(parent[:]); h.Write([]byte(desc)) not found")
+		} else {
+			g.emitBytesLit("subkey_prefix", "first bytes cache.Subkey feeds to SHA-256 (then parent[:], then []byte(desc))", prefix)
+		}
+	} else {
+		g.fail("cache.Subkey not found")
+	}
+	if fn := g.funcDecl(dir, "FileHash"); fn != nil {
+		// the memo table is consulted first, and filled (SetFileHash) only after a successful hash
+		look := false
+		ast.Inspect(fn.Body, func(x ast.Node) bool {
+			if ix, ok := x.(*ast.IndexExpr); ok {
+				if se, ok := ix.X.(*ast.SelectorExpr); ok && se.Sel.Name == "m" {
+					if id, ok := se.X.(*ast.Ident); ok && id.Name == "hashFileCache" {
+						look = true
+					}
+				}
+			}
+			return true
+		})
+		var setPos []token.Pos
+		ast.Inspect(fn.Body, func(x ast.Node) bool {
+			if c, ok := x.(*ast.CallExpr); ok {
+				if id, ok := c.Fun.(*ast.Ident); ok && id.Name == "SetFileHash" {
+					setPos = append(setPos, c.Pos())
+				}
+			}
+			return true
+		})
+		opens := cacheCallPos(fn, "os", "Open")
+		copies := cacheCallPos(fn, "io", "Copy")
+		closes := cacheCallPos(fn, "f", "Close")
+		ok := look && cacheIncreasing(opens, copies, closes, setPos)
+		cacheEmitBool(g, "file_hash_memo_ok", "cache.FileHash: look hashFileCache.m up first; else os.Open, io.Copy, f.Close, SetFileHash, once each and in this order", ok)
+	} else {
+		g.fail("cache.FileHash not found")
+	}
 	if fn := g.funcDecl(dir, "Cache.PutBytes"); fn != nil {
 		cacheEmitBool(g, "put_bytes_via_put", "cache.PutBytes is `_, _, err := c.Put(id, bytes.NewReader(data)); return err` and nothing else", cachePutBytesViaPut(fn))
 	} else {
